@@ -39,6 +39,16 @@ _QUOTED = re.compile(r"""(?:L|u8|u|U)?(['"])(.*)\1""", re.S)
 _LENIENT_ESC_CHAR = set("abcdefghijklmnopqrstuvwxyzABCDEFGHIJKLMNOPQRSTUVWXYZ0123456789._~!=&^-\\?'\"")
 
 
+CONTEXTS = [
+    ("int a[%s];", ("ext", 0, "type", "dim")),
+    ("void f(void){ g(%s); }", ("ext", 0, "body", "block_items", 0, "args", "exprs", 0)),
+    ("enum { K = %s };", ("ext", 0, "type", "values", "enumerators", 0, "value")),
+    ("void f(void){ switch (x) { case %s: ; } }", ("ext", 0, "body", "block_items", 0, "stmt", "block_items", 0, "expr")),
+    ("struct B { int w : %s; };", ("ext", 0, "type", "decls", 0, "bitsize")),
+    ("void f(int p[static %s]);", ("ext", 0, "type", "args", "params", 0, "type", "dim")),
+]
+
+
 def lex(s):
     errs = []
     lx = CLexer(lambda m, l, c: errs.append(m), lambda: None, lambda: None, lambda n: False)
@@ -129,6 +139,18 @@ def check_string(s, st, via_parser=True):
         want = expected_type(got, s)
         if node.type != want:
             fail("constant-node", case, s, "Constant.type is %r, the spelling implies %r" % (node.type, want), "constant-type")
+        # the same literal in other syntactic positions: same Constant
+        if not got.endswith("LITERAL"):
+            for tmpl, path in CONTEXTS:
+                try:
+                    a2 = c_parser.CParser().parse(tmpl % s, "f.c")
+                except Exception as e:  # noqa: BLE001
+                    fail("constant-node", case, s, "accepted literal rejected in %r: %s" % (tmpl % s, e), "parser-rejects")
+                n2 = a2
+                for p_ in path:
+                    n2 = n2[p_] if isinstance(p_, int) else getattr(n2, p_)
+                if not isinstance(n2, c_ast.Constant) or n2.value != s or n2.type != want:
+                    fail("constant-node", case, s, "in %r the Constant is (%r, %r), the spelling implies (%r, %r)" % (tmpl % s, getattr(n2, "type", None), getattr(n2, "value", None), want, s), "constant-type-context")
     return nontrivial
 
 
